@@ -17,6 +17,7 @@ import OFV.Proofs.C11Sweep
 import OFV.Proofs.C11Left
 import OFV.Proofs.C11Unit
 import OFV.Proofs.C11Diag
+import OFV.Proofs.C11RowUnit
 
 namespace OFV.C11
 open OFV OFV.Model.C11
@@ -447,6 +448,53 @@ theorem givens_decomposition_annihilates_upper_part (tol : Rat) (htol : 0 < tol)
     Rect M' m n ∧ ∀ i j, i < m → i < j → j < n → M'.get i j = 0 := by
   obtain ⟨hR, hc⟩ := leftStage_zeroes_corner tol htol m n (by omega) Q V0 M V h1 hex1 hQ
   exact givens_sweep_annihilates_upper_part tol htol ai m n hm M ls M' hR hc h2 hex2
+
+/-- **`givens_decomposition` brings every `m × n` isometry (`m < n`) to `(D | 0)` (exact regime).**
+Rows of `Q` orthonormal; left-unitary stage (row rotations by unitary 2×2 matrices) followed by the column sweep
+(column rotations).  Then the final matrix `M' = V Q U†` has `M'[i,j] = 0` for all `i ≠ j` (`i < m`, `j < n`) and
+`|M'[j,j]| = 1` for `j < m` — the statement `V Q U† = D` of the docstring with a unit-modulus diagonal.
+Not formalised: that the returned `left_unitary` / rotation list multiply out to `V` / `U` (bookkeeping of the same
+elementary updates, checked numerically by the reconstruction oracle). -/
+theorem givens_decomposition_diagonalises (tol : Rat) (htol : 0 < tol) (ai : Bool) (m n : Nat)
+    (hm : m < n) (Q V0 M V : Mat) (ls : List (List Rot)) (M' : Mat) (hQ : Rect Q m n)
+    (horth : RowsOrthonormal Q m n)
+    (h1 : leftStage tol (givensLeft m n) Q V0 = .ok (M, V)) (hex1 : LeftExact tol (givensLeft m n) Q)
+    (h2 : colSweep tol (givensLayer m n) ai (List.range (givensDepth n)) M = .ok (ls, M'))
+    (hex2 : SweepExact tol ai (givensLayer m n) (List.range (givensDepth n)) M) :
+    (∀ i j, i < m → j < n → i ≠ j → M'.get i j = 0) ∧
+    (∀ j, j < m → (M'.get j j).re * (M'.get j j).re + (M'.get j j).im * (M'.get j j).im = 1) := by
+  obtain ⟨hR, hc⟩ := leftStage_zeroes_corner tol htol m n (by omega) Q V0 M V h1 hex1 hQ
+  obtain ⟨_, hup⟩ := givens_sweep_annihilates_upper_part tol htol ai m n hm M ls M' hR hc h2 hex2
+  have hleftval : ∀ p ∈ givensLeft m n, p.1 + 1 < m := by
+    intro p hp
+    obtain ⟨l, k⟩ := p
+    have := (mem_givensLeft m n l k (by omega)).1 hp
+    simp only; omega
+  have ho1 := leftStage_orthonormal tol htol m n _ Q V0 M V h1 hex1 hQ hleftval horth
+  have hval : ∀ k, ∀ p ∈ givensLayer m n k, p.1 < m ∧ 1 ≤ p.2 ∧ p.2 < n := by
+    intro k p hp
+    obtain ⟨i, j⟩ := p
+    -- `givensLayer` lists only valid positions for every k (by the three cases of its definition)
+    by_cases hk : k < n - 1
+    · rw [mem_givensLayer m n k i j hm hk] at hp; simp only; omega
+    · exfalso
+      unfold givensLayer at hp
+      simp only at hp
+      split at hp
+      · rw [mem_zipUp] at hp; obtain ⟨t, ht, _, _⟩ := hp; omega
+      · split at hp
+        · rw [mem_zipUp] at hp; obtain ⟨t, ht, _, _⟩ := hp; omega
+        · split at hp
+          · rw [mem_zipUp] at hp; obtain ⟨t, ht, _, _⟩ := hp; omega
+          · rw [mem_zipUp] at hp; obtain ⟨t, ht, _, _⟩ := hp; omega
+  obtain ⟨_, hg⟩ := colSweep_gram tol htol ai m n (givensLayer m n) hval _ M ls M' h2 hex2 hR
+  have ho' := ho1.of_sameGram hg
+  have hd := diagonal_of_triangular_orthonormal M' m n (by omega) hup ho'
+  refine ⟨?_, fun j hj => (hd j hj).2⟩
+  intro i j hi hj hij
+  by_cases hjm : j < m
+  · exact (hd j hjm).1 i hi hij
+  · exact hup i j hi (by omega) hj
 
 /-- `decompGivens` (what the driver executes for `givens_decomposition`) is the composition of the two stages
 and returns the diagonal of the final matrix -/
